@@ -61,6 +61,8 @@ def concrete_method(interp, recv: Any, name: str, args: list, kwargs: dict) -> A
             plain.append(bytearray(a.items) if a.kind == "bytearray" else list(a.items))
         elif is_concrete(a):
             plain.append(a)
+        elif isinstance(a, ADict) and all(is_concrete(k_) and is_concrete(v_) for k_, v_ in a.pairs):
+            plain.append({k_: v_ for k_, v_ in a.pairs})
         else:
             return MISSING
     if not all(is_concrete(v) for v in kwargs.values()):
